@@ -1,1 +1,838 @@
-fn main(){ println!("stub"); }
+#![recursion_limit = "1024"]
+//! C19 driver: walks the (bit offset, length, content, base-pointer alignment)
+//! grid over every bit-mask primitive of arrow-buffer and records, per call, the
+//! *logical* input bits, the parameters and what the real code returned.
+//! Nothing is judged here: Trace_BitOps.tla (TLC) recomputes every result with
+//! the operators of BitOps.tla.
+//!
+//! Event kinds: un, bin, set, quat, null, ctor (stateless, trace `ops-*`) and
+//! bnew / bcall (builder state machines, trace `builder-*`).
+use arrow_buffer::bit_chunk_iterator::UnalignedBitChunk;
+use arrow_buffer::bit_iterator::BitIterator;
+use arrow_buffer::bit_mask::set_bits;
+use arrow_buffer::bit_util::{apply_bitwise_binary_op, apply_bitwise_unary_op};
+use arrow_buffer::buffer::{
+    bitwise_bin_op_helper, bitwise_quaternary_op_helper, bitwise_unary_op_helper, buffer_bin_and_not, buffer_unary_not,
+};
+use arrow_buffer::{BooleanBuffer, BooleanBufferBuilder, Buffer, MutableBuffer, NullBuffer, NullBufferBuilder};
+use vcore::trace::Shards;
+use vcore::{guarded, json, Args, Rng, Value};
+
+const LATTICE: [usize; 12] = [0, 1, 7, 8, 9, 63, 64, 65, 127, 128, 129, 130];
+const LENS: [usize; 13] = [0, 1, 7, 8, 9, 63, 64, 65, 127, 128, 129, 130, 200];
+const NPAT: usize = 6;
+
+// ------------------------------------------------------------------ bit helpers
+
+fn get(bytes: &[u8], i: usize) -> bool {
+    bytes[i / 8] & (1 << (i % 8)) != 0
+}
+
+fn put(bytes: &mut [u8], i: usize, v: bool) {
+    if v {
+        bytes[i / 8] |= 1 << (i % 8)
+    } else {
+        bytes[i / 8] &= !(1 << (i % 8))
+    }
+}
+
+/// all bits of a byte slice as 0/1
+fn all_bits(bytes: &[u8]) -> Vec<u8> {
+    (0..bytes.len() * 8).map(|i| get(bytes, i) as u8).collect()
+}
+
+/// the first `n` bits of a packed result (fewer when the buffer is too short: TLC then rejects the length)
+fn first_bits(bytes: &[u8], n: usize) -> Vec<u8> {
+    (0..n.min(bytes.len() * 8)).map(|i| get(bytes, i) as u8).collect()
+}
+
+fn logical(b: &BooleanBuffer) -> Vec<u8> {
+    (0..b.len()).map(|i| b.value(i) as u8).collect()
+}
+
+fn b01(v: &[bool]) -> Vec<u8> {
+    v.iter().map(|x| *x as u8).collect()
+}
+
+fn words_bits(ws: impl Iterator<Item = u64>) -> Vec<u8> {
+    let mut out = vec![];
+    for w in ws {
+        for i in 0..64 {
+            out.push(((w >> i) & 1) as u8);
+        }
+    }
+    out
+}
+
+fn opt3(x: Option<bool>) -> u8 {
+    match x {
+        Some(true) => 1,
+        Some(false) => 0,
+        None => 2,
+    }
+}
+
+/// content patterns: all-zero, all-one, alternating, single bit at the start, single bit at the end, random
+fn pattern(rng: &mut Rng, kind: usize, n: usize) -> Vec<bool> {
+    let phase = rng.chance(50);
+    (0..n)
+        .map(|i| match kind {
+            0 => false,
+            1 => true,
+            2 => (i % 2 == 0) == phase,
+            3 => i == 0,
+            4 => i + 1 == n,
+            _ => rng.chance(50),
+        })
+        .collect()
+}
+
+/// patterns that are distinct for this length
+fn patterns_for(n: usize) -> Vec<usize> {
+    match n {
+        0 => vec![5],
+        1 => vec![0, 1],
+        _ => (0..NPAT).collect(),
+    }
+}
+
+/// A physical realisation of logical bits: a `Buffer` whose base pointer sits `sh` bytes after a
+/// 64-byte aligned allocation, holding `bits` at bit offset `off`; every other bit comes from `sur`.
+struct Phys {
+    buf: Buffer,
+    off: usize,
+    n: usize,
+}
+
+fn nbytes(off: usize, n: usize, extra: usize) -> usize {
+    (off + n).div_ceil(8) + extra
+}
+
+fn place(bits: &[bool], off: usize, extra: usize, sh: usize, sur: &[bool], flip: bool) -> Phys {
+    let nb = nbytes(off, bits.len(), extra);
+    let mut m = MutableBuffer::from_len_zeroed(sh + nb);
+    {
+        let s = m.as_slice_mut();
+        for x in s.iter_mut().take(sh) {
+            *x = 0xA5;
+        }
+        let view = &mut s[sh..];
+        for j in 0..nb * 8 {
+            let v = if j >= off && j < off + bits.len() { bits[j - off] } else { sur[j % sur.len()] != flip };
+            put(view, j, v);
+        }
+    }
+    let buf = Buffer::from(m).slice(sh);
+    Phys { buf, off, n: bits.len() }
+}
+
+impl Phys {
+    fn bb(&self) -> BooleanBuffer {
+        BooleanBuffer::new(self.buf.clone(), self.off, self.n)
+    }
+    fn bytes(&self) -> &[u8] {
+        self.buf.as_slice()
+    }
+}
+
+/// mutable copy of a byte view placed `sh` bytes into an aligned allocation
+struct MutView {
+    m: MutableBuffer,
+    sh: usize,
+}
+
+impl MutView {
+    fn of(bytes: &[u8], sh: usize) -> MutView {
+        let mut m = MutableBuffer::from_len_zeroed(sh + bytes.len());
+        m.as_slice_mut()[sh..].copy_from_slice(bytes);
+        MutView { m, sh }
+    }
+    fn view(&mut self) -> &mut [u8] {
+        let sh = self.sh;
+        &mut self.m.as_slice_mut()[sh..]
+    }
+    fn bits(&self) -> Vec<u8> {
+        all_bits(&self.m.as_slice()[self.sh..])
+    }
+}
+
+fn mutable_of(bytes: &[u8]) -> MutableBuffer {
+    let mut m = MutableBuffer::from_len_zeroed(bytes.len());
+    m.as_slice_mut().copy_from_slice(bytes);
+    m
+}
+
+fn surround(rng: &mut Rng) -> Vec<bool> {
+    (0..509).map(|_| rng.chance(50)).collect()
+}
+
+// word functions from truth tables (first operand = most significant index bit)
+fn sel(x: u64, one: bool) -> u64 {
+    if one { x } else { !x }
+}
+fn w1(f: [u8; 2]) -> impl Fn(u64) -> u64 {
+    move |a| (0..2).filter(|i| f[*i] == 1).fold(0u64, |acc, i| acc | sel(a, i == 1))
+}
+fn w2(f: [u8; 4]) -> impl Fn(u64, u64) -> u64 {
+    move |a, b| (0..4).filter(|i| f[*i] == 1).fold(0u64, |acc, i| acc | (sel(a, i & 2 != 0) & sel(b, i & 1 != 0)))
+}
+fn w4(f: [u8; 16]) -> impl Fn(u64, u64, u64, u64) -> u64 {
+    move |a, b, c, d| {
+        (0..16).filter(|i| f[*i] == 1).fold(0u64, |acc, i| {
+            acc | (sel(a, i & 8 != 0) & sel(b, i & 4 != 0) & sel(c, i & 2 != 0) & sel(d, i & 1 != 0))
+        })
+    }
+}
+fn table<const N: usize>(idx: usize) -> [u8; N] {
+    let mut f = [0u8; N];
+    for (i, x) in f.iter_mut().enumerate() {
+        *x = ((idx >> i) & 1) as u8;
+    }
+    f
+}
+
+struct Ctx {
+    ops: Shards,
+    bld: Shards,
+    rng: Rng,
+    cases: usize,
+    panics: usize,
+    counter: usize,
+}
+
+impl Ctx {
+    /// emit the event built by `f`, or a `panic` event (which TLC rejects) if the code under test panicked
+    fn record(&mut self, kind: &str, params: Value, f: impl FnOnce() -> Value) {
+        match guarded(f) {
+            Ok(ev) => self.ops.emit(ev),
+            Err(msg) => {
+                self.panics += 1;
+                self.ops.emit(json!({"op": "panic", "kind": kind, "params": params, "msg": msg}));
+            }
+        }
+    }
+    fn next(&mut self) -> usize {
+        self.counter += 1;
+        self.counter
+    }
+}
+
+// ------------------------------------------------------------------------ un
+
+fn un_case(c: &mut Ctx, off: usize, n: usize, pat: usize) {
+    let a = pattern(&mut c.rng, pat, n);
+    let k = c.next();
+    let f1: [u8; 2] = table(k % 4);
+    let sur = surround(&mut c.rng);
+    let extra = [0usize, 1, 9][c.rng.below(3)];
+    let so = c.rng.below(n + 1);
+    let sn = c.rng.below(n - so + 1);
+    let ones = a.iter().filter(|x| **x).count();
+    let fq: Vec<(usize, usize)> = (0..3)
+        .map(|i| {
+            let start = if i == 0 { 0 } else { c.rng.below(n + 1) };
+            (start, c.rng.below(ones + 2))
+        })
+        .collect();
+    let k1 = c.rng.below(n + 2);
+    let k2 = c.rng.below(n + 2);
+    let fi: i64 = if n > 0 { c.rng.below(n) as i64 } else { -1 };
+    let oo = LATTICE[c.rng.below(LATTICE.len())];
+    let sh2 = 1 + c.rng.below(7);
+    for run in 1..=2usize {
+        let sh = if run == 1 { 0 } else { sh2 };
+        let a = a.clone();
+        let sur = sur.clone();
+        let fq = fq.clone();
+        let params = json!({"off": off, "n": n, "pat": pat, "sh": sh, "run": run});
+        c.record("un", params, move || {
+            let p = place(&a, off, extra, sh, &sur, run == 2);
+            let bb = p.bb();
+            let bytes = p.bytes();
+            // another realisation of the same content (and of a differing one) for equality
+            let other = place(&a, oo, 0, (sh + 3) % 8, &sur, run == 1).bb();
+            let differing = if fi >= 0 {
+                let mut x = a.clone();
+                x[fi as usize] = !x[fi as usize];
+                place(&x, oo, 0, 0, &sur, false).bb()
+            } else {
+                let mut x = a.clone();
+                x.push(false);
+                place(&x, oo, 0, 0, &sur, false).bb()
+            };
+            let mut it1 = BitIterator::new(bytes, off, n);
+            let nth = opt3(it1.nth(k1));
+            let nth_rest = it1.len();
+            let mut it2 = bb.iter();
+            let nthb = opt3(it2.nth_back(k2));
+            let nthb_rest = it2.len();
+            let bc = bb.bit_chunks();
+            let u = UnalignedBitChunk::new(bytes, off, n);
+            let sl = bb.slice(so, sn);
+            let mut mv = MutView::of(bytes, sh);
+            let d0 = mv.bits();
+            apply_bitwise_unary_op(mv.view(), off, n, w1(f1));
+            let d1 = mv.bits();
+            json!({
+                "op": "un", "run": run, "off": off, "n": n, "sh": sh, "pat": pat,
+                "a": b01(&a), "f1": f1.to_vec(),
+                "count": bb.count_set_bits(), "cnt2": p.buf.count_set_bits_offset(off, n), "ucnt": u.count_ones(),
+                "nulls": NullBuffer::new(bb.clone()).null_count(),
+                "ht": bb.has_true(), "hf": bb.has_false(),
+                "iter": BitIterator::new(bytes, off, n).map(|x| x as u8).collect::<Vec<u8>>(),
+                "rev": bb.iter().rev().map(|x| x as u8).collect::<Vec<u8>>(),
+                "it": [k1, nth as usize, nth_rest, k2, nthb as usize, nthb_rest,
+                       opt3(bb.iter().last()) as usize, opt3(bb.iter().max()) as usize, bb.iter().count()],
+                "idx": bb.set_indices().collect::<Vec<usize>>(),
+                "idx32": bb.set_indices_u32().collect::<Vec<u32>>(),
+                "runs": bb.set_slices().map(|(s, e)| vec![s, e]).collect::<Vec<Vec<usize>>>(),
+                "cl": bc.chunk_len(), "rl": bc.remainder_len(), "chunks": words_bits(bc.iter()),
+                "rem": words_bits(std::iter::once(bc.remainder_bits())), "padded": bc.iter_padded().count(),
+                "ulead": u.lead_padding(), "utrail": u.trailing_padding(), "uw": words_bits(u.iter()),
+                "not": logical(&!&bb),
+                "bnot": first_bits(buffer_unary_not(&p.buf, off, n).as_slice(), n),
+                "hnot": first_bits(bitwise_unary_op_helper(&p.buf, off, n, |x| !x).as_slice(), n),
+                "un": logical(&BooleanBuffer::from_bitwise_unary_op(bytes, off, n, w1(f1))),
+                "hun": first_bits(bitwise_unary_op_helper(&p.buf, off, n, w1(f1)).as_slice(), n),
+                "fb": logical(&BooleanBuffer::from_bits(bytes, off, n)),
+                "sliced": first_bits(bb.sliced().as_slice(), n),
+                "bsl": first_bits(p.buf.bit_slice(off, n).as_slice(), n),
+                "so": so, "sn": sn, "sl": logical(&sl), "slcount": sl.count_set_bits(),
+                "fq": fq.iter().map(|(s, k)| vec![*s, *k, bb.find_nth_set_bit_position(*s, *k)]).collect::<Vec<_>>(),
+                "eq1": bb == other, "fi": fi, "eq2": bb == differing,
+                "d0": d0, "d1": d1,
+            })
+        });
+    }
+    c.cases += 1;
+    c.ops.next_episode();
+}
+
+// ----------------------------------------------------------------------- bin
+
+fn bin_case(c: &mut Ctx, lo: usize, ro: usize, n: usize, pa: usize, pb: usize) {
+    let a = pattern(&mut c.rng, pa, n);
+    let b = pattern(&mut c.rng, pb, n);
+    let k = c.next();
+    let f2: [u8; 4] = table(k % 16);
+    let aop = ["and", "or", "xor"][k % 3];
+    let sur = surround(&mut c.rng);
+    let sur2 = surround(&mut c.rng);
+    let extra = [0usize, 1, 9][c.rng.below(3)];
+    let extra_r = [0usize, 1, 9][c.rng.below(3)];
+    let shs = [1 + c.rng.below(7), c.rng.below(8)];
+    for run in 1..=2usize {
+        let (shl, shr) = if run == 1 { (0, 0) } else { (shs[0], shs[1]) };
+        let (a, b, sur, sur2) = (a.clone(), b.clone(), sur.clone(), sur2.clone());
+        let params = json!({"lo": lo, "ro": ro, "n": n, "run": run});
+        c.record("bin", params, move || {
+            let l = place(&a, lo, extra, shl, &sur, run == 2);
+            let r = place(&b, ro, extra_r, shr, &sur2, run == 2);
+            let (bl, br) = (l.bb(), r.bb());
+            let mut mv = MutView::of(l.bytes(), shl);
+            let d0 = mv.bits();
+            apply_bitwise_binary_op(mv.view(), lo, r.bytes(), ro, n, w2(f2));
+            let d1 = mv.bits();
+            // op-assign on a uniquely owned, unsliced buffer (in-place path) ...
+            let mut um = MutableBuffer::from_len_zeroed(l.bytes().len());
+            um.as_slice_mut().copy_from_slice(l.bytes());
+            let ub = Buffer::from(um);
+            let uptr = ub.as_ptr();
+            let mut x = BooleanBuffer::new(ub, lo, n);
+            let au0 = all_bits(x.values());
+            match aop {
+                "and" => x &= &br,
+                "or" => x |= &br,
+                _ => x ^= &br,
+            }
+            let inpl = x.inner().as_ptr() == uptr && x.offset() == lo;
+            let au1 = if inpl { all_bits(x.values()) } else { au0.clone() };
+            // ... and on a shared one (copying path); `keep` must not change
+            let keep = bl.clone();
+            let mut y = bl.clone();
+            match aop {
+                "and" => y &= &br,
+                "or" => y |= &br,
+                _ => y ^= &br,
+            }
+            json!({
+                "op": "bin", "run": run, "lo": lo, "ro": ro, "n": n, "shl": shl, "shr": shr,
+                "a": b01(&a), "b": b01(&b), "f2": f2.to_vec(),
+                "and": logical(&(&bl & &br)), "or": logical(&(&bl | &br)), "xor": logical(&(&bl ^ &br)),
+                "andnot": first_bits(buffer_bin_and_not(&l.buf, lo, &r.buf, ro, n).as_slice(), n),
+                "tt": logical(&BooleanBuffer::from_bitwise_binary_op(l.bytes(), lo, r.bytes(), ro, n, w2(f2))),
+                "htt": first_bits(bitwise_bin_op_helper(&l.buf, lo, &r.buf, ro, n, w2(f2)).as_slice(), n),
+                "d0": d0, "d1": d1,
+                "aop": aop, "asu": logical(&x), "inpl": inpl, "au0": au0, "au1": au1,
+                "ass": logical(&y), "aso": logical(&keep),
+            })
+        });
+    }
+    c.cases += 1;
+    c.ops.next_episode();
+}
+
+// ----------------------------------------------------------------------- set
+
+fn set_case(c: &mut Ctx, dof: usize, sof: usize, n: usize, pat: usize, zeroed: bool) {
+    let src = pattern(&mut c.rng, pat, n);
+    let sur = surround(&mut c.rng);
+    let dsur = surround(&mut c.rng);
+    let extra = [0usize, 1, 9][c.rng.below(3)];
+    let dextra = [0usize, 1, 9][c.rng.below(3)];
+    let dcontent: Vec<bool> = if zeroed { vec![false; n] } else { pattern(&mut c.rng, 5, n) };
+    let shs = [1 + c.rng.below(7), c.rng.below(8)];
+    for run in 1..=2usize {
+        let (shs_, shd) = if run == 1 { (0, 0) } else { (shs[0], shs[1]) };
+        let (src, sur, dsur, dcontent) = (src.clone(), sur.clone(), dsur.clone(), dcontent.clone());
+        let params = json!({"do": dof, "so": sof, "n": n, "run": run});
+        c.record("set", params, move || {
+            let s = place(&src, sof, extra, shs_, &sur, run == 2);
+            // the destination is the same in both runs (only the source's surroundings change)
+            let d = place(&dcontent, dof, dextra, 0, &dsur, false);
+            let mut mv = MutView::of(d.bytes(), shd);
+            let d0 = mv.bits();
+            let ret = set_bits(mv.view(), s.bytes(), dof, sof, n);
+            let d1 = mv.bits();
+            json!({"op": "set", "run": run, "do": dof, "so": sof, "n": n, "z": zeroed, "shs": shs_, "shd": shd,
+                   "src": b01(&src), "d0": d0, "d1": d1, "ret": ret})
+        });
+    }
+    c.cases += 1;
+    c.ops.next_episode();
+}
+
+// ---------------------------------------------------------------------- quat
+
+fn quat_case(c: &mut Ctx, n: usize) {
+    let k = c.next();
+    let ins: Vec<Vec<bool>> = (0..4).map(|i| pattern(&mut c.rng, if i == 0 { k % NPAT } else { 5 }, n)).collect();
+    let offs: Vec<usize> = (0..4).map(|_| if c.rng.chance(70) { LATTICE[c.rng.below(12)] } else { c.rng.below(131) }).collect();
+    let f4: [u8; 16] = table(c.rng.below(65536));
+    let surs: Vec<Vec<bool>> = (0..4).map(|_| surround(&mut c.rng)).collect();
+    let shs: Vec<usize> = (0..4).map(|_| c.rng.below(8)).collect();
+    for run in 1..=2usize {
+        let (ins, offs, surs, shs) = (ins.clone(), offs.clone(), surs.clone(), shs.clone());
+        c.record("quat", json!({"n": n, "run": run}), move || {
+            let ps: Vec<Phys> =
+                (0..4).map(|i| place(&ins[i], offs[i], i % 2, if run == 1 { 0 } else { shs[i] }, &surs[i], run == 2)).collect();
+            let out = bitwise_quaternary_op_helper(
+                [&ps[0].buf, &ps[1].buf, &ps[2].buf, &ps[3].buf],
+                [offs[0], offs[1], offs[2], offs[3]],
+                n,
+                w4(f4),
+            );
+            json!({"op": "quat", "run": run, "n": n, "offs": offs, "f4": f4.to_vec(),
+                   "a": b01(&ins[0]), "b": b01(&ins[1]), "c": b01(&ins[2]), "d": b01(&ins[3]),
+                   "out": first_bits(out.as_slice(), n)})
+        });
+    }
+    c.cases += 1;
+    c.ops.next_episode();
+}
+
+// ---------------------------------------------------------------------- null
+
+fn null_case(c: &mut Ctx, oa: usize, ob: usize, n: usize) {
+    let k = c.next();
+    // bias towards masks without nulls so that the `None` results are met
+    let pk = |rng: &mut Rng, k: usize| if rng.chance(25) { 1 } else { k % NPAT };
+    let (ka, kb, kc) = (pk(&mut c.rng, k), pk(&mut c.rng, k / 6), pk(&mut c.rng, k / 36));
+    let a = pattern(&mut c.rng, ka, n);
+    let b = pattern(&mut c.rng, kb, n);
+    let cc = pattern(&mut c.rng, kc, n);
+    let (pa, pb, pc) = (c.rng.chance(80), c.rng.chance(80), c.rng.chance(60));
+    let oc = LATTICE[c.rng.below(12)];
+    let kx = c.rng.below(4);
+    let surs: Vec<Vec<bool>> = (0..3).map(|_| surround(&mut c.rng)).collect();
+    let shs: Vec<usize> = (0..3).map(|_| c.rng.below(8)).collect();
+    for run in 1..=2usize {
+        let (a, b, cc, surs, shs) = (a.clone(), b.clone(), cc.clone(), surs.clone(), shs.clone());
+        c.record("null", json!({"oa": oa, "ob": ob, "n": n, "run": run}), move || {
+            let sh = |i: usize| if run == 1 { 0 } else { shs[i] };
+            let na = NullBuffer::new(place(&a, oa, 0, sh(0), &surs[0], run == 2).bb());
+            let nb = NullBuffer::new(place(&b, ob, 1, sh(1), &surs[1], run == 2).bb());
+            let nc = NullBuffer::new(place(&cc, oc, 9, sh(2), &surs[2], run == 2).bb());
+            let copy = NullBuffer::new(place(&a, ob, 0, sh(1), &surs[1], run == 1).bb());
+            let o = |p: bool, x: &NullBuffer| if p { Some(x.clone()) } else { None };
+            let (xa, xb, xc) = (o(pa, &na), o(pb, &nb), o(pc, &nc));
+            let u = NullBuffer::union(xa.as_ref(), xb.as_ref());
+            let m = NullBuffer::union_many([xa.as_ref(), xb.as_ref(), xc.as_ref()]);
+            let ex = na.expand(kx);
+            let bits = |x: &Option<NullBuffer>| x.as_ref().map(|x| logical(x.inner())).unwrap_or_default();
+            let ncount = |x: &Option<NullBuffer>| x.as_ref().map(|x| x.null_count()).unwrap_or(0);
+            json!({"op": "null", "run": run, "n": n, "oa": oa, "ob": ob, "oc": oc,
+                   "a": b01(&a), "b": b01(&b), "c": b01(&cc), "pa": pa, "pb": pb, "pc": pc,
+                   "u_p": u.is_some(), "u": bits(&u), "u_nc": ncount(&u),
+                   "m_p": m.is_some(), "m": bits(&m), "m_nc": ncount(&m),
+                   "cont": na.contains(&nb),
+                   "k": kx, "ex": logical(ex.inner()), "ex_nc": ex.null_count(),
+                   "nc": na.null_count(), "eqn": na == copy,
+                   "vidx": na.valid_indices().collect::<Vec<usize>>(),
+                   "vruns": na.valid_slices().map(|(s, e)| vec![s, e]).collect::<Vec<Vec<usize>>>()})
+        });
+    }
+    c.cases += 1;
+    c.ops.next_episode();
+}
+
+// ---------------------------------------------------------------------- ctor
+
+fn ctor_case(c: &mut Ctx, n: usize, pat: usize) {
+    let a = pattern(&mut c.rng, pat, n);
+    c.record("ctor", json!({"n": n}), move || {
+        let names = ["collect_bool", "MutableBuffer::collect_bool", "from_iter", "from_slice", "from_vec",
+                     "from_trusted_len_iter_bool", "NullBuffer::from_slice", "Buffer::from_iter", "NullBuffer::from_iter"];
+        let outs: Vec<Vec<u8>> = vec![
+            logical(&BooleanBuffer::collect_bool(n, |i| a[i])),
+            first_bits(MutableBuffer::collect_bool(n, |i| a[i]).as_slice(), n),
+            logical(&a.iter().copied().collect::<BooleanBuffer>()),
+            logical(&BooleanBuffer::from(a.as_slice())),
+            logical(&BooleanBuffer::from(a.clone())),
+            first_bits(unsafe { MutableBuffer::from_trusted_len_iter_bool(a.iter().copied()) }.as_slice(), n),
+            logical(NullBuffer::from(a.as_slice()).inner()),
+            first_bits(a.iter().copied().collect::<Buffer>().as_slice(), n),
+            logical(a.iter().copied().collect::<NullBuffer>().inner()),
+        ];
+        let nv = NullBuffer::new_valid(n);
+        let nn = NullBuffer::new_null(n);
+        json!({"op": "ctor", "n": n, "a": b01(&a), "names": names.join(","), "outs": outs,
+               "set": logical(&BooleanBuffer::new_set(n)), "unset": logical(&BooleanBuffer::new_unset(n)),
+               "nv": logical(nv.inner()), "nn": logical(nn.inner()), "nv_nc": nv.null_count(), "nn_nc": nn.null_count()})
+    });
+    c.cases += 1;
+    c.ops.next_episode();
+}
+
+// ------------------------------------------------------------------ builders
+
+enum Bld {
+    Bool(BooleanBufferBuilder),
+    Null(NullBufferBuilder),
+}
+
+impl Bld {
+    fn len(&self) -> usize {
+        match self {
+            Bld::Bool(b) => b.len(),
+            Bld::Null(b) => b.len(),
+        }
+    }
+    /// (present, bits) of finish_cloned
+    fn content(&self) -> (bool, Vec<u8>) {
+        match self {
+            Bld::Bool(b) => (true, logical(&b.finish_cloned())),
+            Bld::Null(b) => match b.finish_cloned() {
+                Some(n) => (true, logical(n.inner())),
+                None => (false, vec![]),
+            },
+        }
+    }
+}
+
+fn bemit(c: &mut Ctx, call: &str, k: usize, v: bool, s: Vec<u8>, res: Result<(usize, bool, Vec<u8>), String>) {
+    match res {
+        Ok((len, p, bits)) => {
+            c.bld.emit(json!({"op": "bcall", "call": call, "k": k, "v": v as u8, "s": s, "len": len, "p": p, "bits": bits}))
+        }
+        Err(msg) => {
+            c.panics += 1;
+            c.bld.emit(json!({"op": "panic", "kind": "bcall", "call": call, "k": k, "msg": msg}))
+        }
+    }
+}
+
+/// one builder call on `b`; `dst`/`src`/`n` steer the packed-range calls when given
+fn bstep(c: &mut Ctx, b: &mut Bld, forced: Option<(&str, usize, usize)>) {
+    let len = b.len();
+    let is_bool = matches!(b, Bld::Bool(_));
+    let calls: &[&str] = if is_bool {
+        &["append", "append_n", "append_slice", "append_packed", "append_buffer", "extend", "append_word", "set_bit",
+          "advance", "truncate", "resize", "finish", "finish_cloned"]
+    } else {
+        &["append", "append_n", "append_slice", "append_buffer", "set_bit", "truncate", "finish", "finish_cloned",
+          "append_non_null", "append_null"]
+    };
+    let (call, so, n) = match forced {
+        Some((call, so, n)) => (call, so, n),
+        None => {
+            let call = calls[c.rng.below(calls.len())];
+            let n = if c.rng.chance(60) { LENS[c.rng.below(10)] } else { c.rng.below(70) };
+            (call, LATTICE[c.rng.below(12)], n)
+        }
+    };
+    let call = if call == "set_bit" && len == 0 { "append" } else { call };
+    let v = c.rng.chance(50);
+    let pat = c.rng.below(NPAT);
+    let s = pattern(&mut c.rng, pat, n);
+    let sur = surround(&mut c.rng);
+    let sh = c.rng.below(8);
+    let word: u64 = c.rng.next();
+    let cnt = c.rng.below(65);
+    let idx = if len > 0 { c.rng.below(len) } else { 0 };
+    let tk = if forced.is_some() && (call == "truncate" || call == "resize") {
+        n // forced: the exact target length
+    } else if c.rng.chance(20) {
+        len + c.rng.below(9)
+    } else {
+        c.rng.below(len + 1)
+    };
+    // (spec call name, k, v, s) as logged
+    let (name, k, lv, ls): (&str, usize, bool, Vec<u8>) = match call {
+        "append" => ("append", 0, v, vec![]),
+        "append_non_null" => ("append", 0, true, vec![]),
+        "append_null" => ("append", 0, false, vec![]),
+        "append_n" => ("append_n", n, v, vec![]),
+        "append_slice" => ("append_slice", 0, false, b01(&s)),
+        "append_packed" => ("append_packed", 0, false, b01(&s)),
+        "append_buffer" => ("append_buffer", 0, false, b01(&s)),
+        "extend" => ("extend", 0, false, b01(&s)),
+        "append_word" => ("append_word", cnt, false, words_bits(std::iter::once(word))),
+        "set_bit" => ("set_bit", idx, v, vec![]),
+        "advance" => ("advance", n, false, vec![]),
+        "truncate" => ("truncate", tk, false, vec![]),
+        "resize" => ("resize", tk, false, vec![]),
+        "finish" => ("finish", 0, false, vec![]),
+        _ => ("finish_cloned", 0, false, vec![]),
+    };
+    let res = guarded(|| {
+        let p = place(&s, so, 1, sh, &sur, false);
+        let mut finished: Option<(bool, Vec<u8>)> = None;
+        match b {
+            Bld::Bool(bb) => match call {
+                "append" => bb.append(v),
+                "append_n" => bb.append_n(n, v),
+                "append_slice" => bb.append_slice(&s),
+                "append_packed" => bb.append_packed_range(so..so + n, p.bytes()),
+                "append_buffer" => bb.append_buffer(&p.bb()),
+                "extend" => unsafe { bb.extend_trusted_len(s.iter().copied()) },
+                "append_word" => bb.append_word(word, cnt),
+                "set_bit" => bb.set_bit(idx, v),
+                "advance" => bb.advance(n),
+                "truncate" => bb.truncate(tk),
+                "resize" => bb.resize(tk),
+                "finish" => finished = Some((true, logical(&bb.finish()))),
+                _ => {}
+            },
+            Bld::Null(nb) => match call {
+                "append" => nb.append(v),
+                "append_non_null" => nb.append_non_null(),
+                "append_null" => nb.append_null(),
+                "append_n" => {
+                    if v { nb.append_n_non_nulls(n) } else { nb.append_n_nulls(n) }
+                }
+                "append_slice" => nb.append_slice(&s),
+                "append_buffer" => nb.append_buffer(&NullBuffer::new(p.bb())),
+                "set_bit" => nb.set_bit(idx, v),
+                "truncate" => nb.truncate(tk),
+                "finish" => {
+                    finished = Some(match nb.finish() {
+                        Some(x) => (true, logical(x.inner())),
+                        None => (false, vec![]),
+                    })
+                }
+                _ => {}
+            },
+        }
+        match finished {
+            Some((p, bits)) => (b.len(), p, bits),
+            None => {
+                let (p, bits) = b.content();
+                (b.len(), p, bits)
+            }
+        }
+    });
+    bemit(c, name, k, lv, ls, res);
+}
+
+fn bnew(c: &mut Ctx, is_bool: bool) -> Bld {
+    let style = c.rng.below(3);
+    let n = if style == 0 { 0 } else { LENS[c.rng.below(10)] };
+    let pat = c.rng.below(NPAT);
+    let init = pattern(&mut c.rng, pat, n);
+    let sur = surround(&mut c.rng);
+    let b = if is_bool {
+        match style {
+            0 => Bld::Bool(BooleanBufferBuilder::new(c.rng.below(100))),
+            _ => {
+                // new_from_buffer: the buffer may hold garbage beyond `len`
+                let p = place(&init, 0, c.rng.below(3), 0, &sur, false);
+                Bld::Bool(BooleanBufferBuilder::new_from_buffer(mutable_of(p.bytes()), n))
+            }
+        }
+    } else {
+        match style {
+            0 => Bld::Null(NullBufferBuilder::new(c.rng.below(100))),
+            1 => Bld::Null(NullBufferBuilder::new_with_len(n)),
+            _ => {
+                let p = place(&init, 0, c.rng.below(3), 0, &sur, false);
+                Bld::Null(NullBufferBuilder::new_from_buffer(mutable_of(p.bytes()), n))
+            }
+        }
+    };
+    let init: Vec<bool> = if !is_bool && style == 1 { vec![true; n] } else if style == 0 { vec![] } else { init };
+    let (p, bits) = b.content();
+    c.bld.emit(json!({"op": "bnew", "kind": if is_bool { "bool" } else { "null" }, "style": style,
+                      "init": b01(&init), "len": b.len(), "p": p, "bits": bits}));
+    b
+}
+
+/// episode: reach destination offset `dst` (the builder length), copy a packed range, then random calls
+fn builder_episode(c: &mut Ctx, is_bool: bool, grid: Option<(usize, usize, usize)>, steps: usize) {
+    let mut b = bnew(c, is_bool);
+    if let Some((dst, so, n)) = grid {
+        let len = b.len();
+        if len != dst {
+            // bring the length to `dst` with a mix of calls
+            if len > dst {
+                bstep(c, &mut b, Some(("truncate", 0, dst)));
+            }
+            let need = dst.saturating_sub(b.len());
+            if need > 0 {
+                let half = need / 2;
+                bstep(c, &mut b, Some(("append_n", 0, half)));
+                bstep(c, &mut b, Some(("append_slice", 0, need - half)));
+            }
+        }
+        let call = if is_bool { ["append_packed", "append_buffer", "extend"][c.rng.below(3)] } else { "append_buffer" };
+        bstep(c, &mut b, Some((call, so, n)));
+    }
+    for _ in 0..steps {
+        if b.len() > 600 {
+            bstep(c, &mut b, Some(("finish", 0, 0)));
+        }
+        bstep(c, &mut b, None);
+    }
+    c.cases += 1;
+    c.bld.next_episode();
+}
+
+// ---------------------------------------------------------------------- main
+
+fn main() {
+    let args = Args::parse();
+    vcore::quiet_panics();
+    let thorough = args.thorough();
+    let dir = args.out.clone();
+    let mut c = Ctx {
+        ops: Shards::create(&dir, "ops", if thorough { 42 } else { 14 }),
+        bld: Shards::create(&dir, "builder", 14),
+        rng: Rng::new(args.seed ^ 0xC19),
+        cases: 0,
+        panics: 0,
+        counter: args.seed as usize,
+    };
+    let offs: Vec<usize> = if thorough { (0..=130).collect() } else { LATTICE.to_vec() };
+    let lens: Vec<usize> = if thorough { (0..=200).collect() } else { LENS.to_vec() };
+
+    // un: every (offset, length) of the tier's grid x every content pattern
+    for &off in &offs {
+        for &n in &lens {
+            for pat in patterns_for(n) {
+                un_case(&mut c, off, n, pat);
+            }
+        }
+    }
+    // bin / set: every (left offset, length) of the grid with a right offset of equal and of different
+    // sub-word alignment; plus the whole boundary cube offsets x offsets x lengths
+    let mut k = 0usize;
+    for &lo in &offs {
+        for &n in &lens {
+            let same = [lo, (lo + 64) % 128, lo % 64][c.rng.below(3)];
+            let mut diff = c.rng.below(131);
+            if diff % 64 == lo % 64 {
+                diff = (diff + 1 + c.rng.below(62)) % 131;
+            }
+            for ro in [same, diff] {
+                k += 1;
+                if thorough || k % 3 == (args.seed as usize) % 3 {
+                    bin_case(&mut c, lo, ro, n, k % NPAT, (k / NPAT) % NPAT);
+                    set_case(&mut c, lo, ro, n, (k / 2) % NPAT, k % 8 != 0);
+                }
+            }
+        }
+    }
+    if thorough {
+        for &lo in &LATTICE {
+            for &ro in &LATTICE {
+                for &n in &LENS {
+                    k += 1;
+                    bin_case(&mut c, lo, ro, n, 5, k % NPAT);
+                    set_case(&mut c, lo, ro, n, k % NPAT, k % 8 != 0);
+                }
+            }
+        }
+    } else {
+        // a seeded third of the boundary cube
+        for &lo in &LATTICE {
+            for &ro in &LATTICE {
+                for &n in &LENS {
+                    k += 1;
+                    if k % 6 == (args.seed as usize) % 6 {
+                        bin_case(&mut c, lo, ro, n, 5, k % NPAT);
+                    }
+                    if k % 6 == (args.seed as usize + 3) % 6 {
+                        set_case(&mut c, lo, ro, n, k % NPAT, k % 8 != 0);
+                    }
+                }
+            }
+        }
+    }
+    // null / quat / ctor
+    let nn = args.scale(150, 3000);
+    for i in 0..nn {
+        let oa = if i % 2 == 0 { LATTICE[c.rng.below(12)] } else { c.rng.below(131) };
+        let ob = if i % 3 == 0 { oa } else { c.rng.below(131) };
+        let n = if i % 2 == 0 { LENS[c.rng.below(13)] } else { c.rng.below(201) };
+        null_case(&mut c, oa, ob, n);
+    }
+    for i in 0..args.scale(80, 1500) {
+        let n = if i % 2 == 0 { LENS[c.rng.below(13)] } else { c.rng.below(201) };
+        quat_case(&mut c, n);
+    }
+    for &n in &lens {
+        for pat in patterns_for(n) {
+            ctor_case(&mut c, n, pat);
+        }
+    }
+    // larger sizes, sampled
+    for _ in 0..args.scale(6, 120) {
+        let n = 201 + c.rng.below(1400);
+        let off = c.rng.below(131);
+        let ro = c.rng.below(131);
+        un_case(&mut c, off, n, 5);
+        bin_case(&mut c, off, ro, n, 5, 2);
+        set_case(&mut c, off, ro, n, 5, true);
+        ctor_case(&mut c, n, 5);
+    }
+    // builders: packed-range copies over (destination offset = builder length, source offset, length)
+    let mut j = 0usize;
+    if thorough {
+        for &dst in &offs {
+            for &n in &lens {
+                j += 1;
+                let so = if j % 2 == 0 { LATTICE[c.rng.below(12)] } else { c.rng.below(131) };
+                builder_episode(&mut c, j % 4 != 0, Some((dst, so, n)), 2);
+            }
+        }
+    }
+    for &dst in &LATTICE {
+        for &so in &LATTICE {
+            for &n in &LENS {
+                j += 1;
+                if thorough || j % 8 == (args.seed as usize) % 8 {
+                    builder_episode(&mut c, j % 4 != 0, Some((dst, so, n)), 3);
+                }
+            }
+        }
+    }
+    for i in 0..args.scale(60, 1500) {
+        builder_episode(&mut c, i % 2 == 0, None, 12);
+    }
+
+    let cases = c.cases;
+    let panics = c.panics;
+    let ev_ops = c.ops.finish();
+    let ev_bld = c.bld.finish();
+    println!("DRIVER c19 cases={cases} events={} ops_events={ev_ops} builder_events={ev_bld} panics={panics}", ev_ops + ev_bld);
+}
